@@ -935,12 +935,37 @@ func c06Pairing(c *Ctx) {
 				bad("a refused or cancelled acquire must neither run innerFn nor release a permit it did not get")
 				continue
 			}
+			// a wait that ended because the execution was cancelled reports the cancellation's cause (the stored
+			// cancel result: the timeout's, ErrExecutionCanceled, or the context's own error), not a bare context error
+			ct := eventsWhere(p, func(e *Event) bool { return isCall(e, "IsCanceledWithResult") && e.Recv == exec && e.Idx > acq[0].Idx })
+			if len(ct) != 1 {
+				bad("after a failed acquire the wrapper must test whether the execution was cancelled (IsCanceledWithResult), so that the cause of the cancellation is what the caller receives")
+				continue
+			}
+			cancelled := triAnd(p.State.Facts.Truth(ts, ct[0].Res[0]), p.State.Facts.Truth(ts, ts.Cmp("!=", ct[0].Res[1], ts.Nil(nil))))
+			switch cancelled {
+			case triT:
+				if p.Exit == ExitReturn && p.Rets[0] != ct[0].Res[1] {
+					bad("a wait ended by cancellation must return the execution's cancel result")
+				}
+				if len(eventsWhere(p, func(e *Event) bool { return isDynCall(e, onFull) })) != 0 {
+					bad("OnFull must not fire for a cancelled wait")
+				}
+				continue
+			case triF:
+			default:
+				bad("the outcome of a failed acquire does not depend on whether the execution was cancelled")
+				continue
+			}
 			if p.Exit == ExitReturn && !isFailureAlloc(ev, p, p.Rets[0], func(a *T) bool { return a == acq[0].Res[0] }) {
 				bad("a refused acquire must fail the execution with the acquire's error (ErrFull or the context error)")
 			}
 			// listener ⇔ errors.Is(err, ErrFull)
 			full := eventsWhere(p, func(e *Event) bool { return isDynCall(e, onFull) })
-			var isFull tri = triU
+			// the acquire functions fail with ErrFull or with the context's error (C06.acquire), and a done context makes
+			// the cancellation test above succeed (execution-protocol): on this path — acquire failed, execution not
+			// cancelled — the error can only be ErrFull, whether or not the code re-tests it
+			var isFull tri = triT
 			for _, e := range p.Events() {
 				if isCall(e, "Is") && len(e.Args) == 2 && e.Args[0] == acq[0].Res[0] && isGlobal(e.Args[1], "ErrFull") {
 					isFull = p.State.Facts.Truth(ts, e.Res[0])
